@@ -87,10 +87,12 @@ func (bo *V2BlockOutline) Complete(cs consensus.State, txns []types.Transaction,
 		}
 		if ptxn.Transaction != nil {
 			b.Transactions = append(b.Transactions, *ptxn.Transaction)
-			b.MinerPayouts[0].Value = b.MinerPayouts[0].Value.Add(ptxn.Transaction.TotalFees())
+			// NOTE: an outline is untrusted; if its fees overflow, the block is
+			// invalid whatever payout is reconstructed
+			b.MinerPayouts[0].Value, _ = b.MinerPayouts[0].Value.AddWithOverflow(ptxn.Transaction.TotalFees())
 		} else if ptxn.V2Transaction != nil {
 			b.V2.Transactions = append(b.V2.Transactions, *ptxn.V2Transaction)
-			b.MinerPayouts[0].Value = b.MinerPayouts[0].Value.Add(ptxn.V2Transaction.MinerFee)
+			b.MinerPayouts[0].Value, _ = b.MinerPayouts[0].Value.AddWithOverflow(ptxn.V2Transaction.MinerFee)
 		}
 	}
 	return b, bo.Missing()
